@@ -55,6 +55,7 @@ type Contract struct {
 	Uses      []*Clause
 	Loops     map[int]*LoopSpec
 	AssumeDep string // non-empty: contract is assumed (reason text)
+	Havoc     string // non-empty: the function is not verified and callers assume NOTHING about it (every heap component havoced)
 	Inline    bool   // always inline this function instead of using a contract
 	NoBody    bool   // verify nothing; contract only used at call sites (assumed)
 	Allocates bool
@@ -117,7 +118,7 @@ type ContractSet struct {
 
 var clauseKeywords = map[string]bool{
 	"property": true, "requires": true, "ensures": true, "panics": true, "modifies": true,
-	"pure": true, "loop": true, "use": true, "assume-dep": true, "inline": true, "nobody": true,
+	"pure": true, "loop": true, "use": true, "assume-dep": true, "havoc": true, "inline": true, "nobody": true,
 	"allocates": true, "opt": true, "results": true, "split": true, "after": true, "at": true, "before": true, "defines": true, "opaque": true,
 }
 
@@ -286,6 +287,11 @@ func (cs *ContractSet) parseContractFile(path string, defaultPkg, defaultPkgName
 			cur.AssumeDep = rest
 			if cur.AssumeDep == "" {
 				cur.AssumeDep = "assumed dependency contract"
+			}
+		case "havoc":
+			cur.Havoc = rest
+			if cur.Havoc == "" {
+				cur.Havoc = "abstracted by total havoc"
 			}
 		case "opt":
 			kv := strings.SplitN(rest, "=", 2)
